@@ -74,8 +74,9 @@ def get_evaluable_architecture(
             convert_partial_match_to_regex(pattern) for pattern in external_exclusions
         )
 
-    root_as_path = Path(root_path)
-    module_as_path = Path(module_path)
+    # relative paths and paths with '.' / '..' segments name the same directories as their absolute, normalised form
+    root_as_path = Path(os.path.abspath(root_path))
+    module_as_path = Path(os.path.abspath(module_path))
 
     path_diff_between_root_and_module = str(
         module_as_path.relative_to(root_as_path)
